@@ -92,6 +92,11 @@ CLAIMED = {
   note="Does not decide window arithmetic, fill values, aggregate functions, limit/offset, or equality of multi-shard/multi-node results with a single-shard evaluation.",
   technique="static analysis: struct-field coverage of codecs, marked path exploration + exhaustive evaluation of compiled path conditions over all weak orderings, comparison-sequence mirror agreement",
   ref="§9 C11"),
+ "C14": dict(
+  text="Structural clauses of index/data agreement: every path to the engine write in Shard.WritePointsWithContext passes validateSeriesAndFields and an error of CreateSeriesListIfNotExists surfaces; the engine is published in the shard only after index Open and LoadMetadataIndex returned nil, each batch scan of LoadMetadataIndex is followed on every path by the flush of the partial last batch and no addToIndexFromKey error is dropped; the TSI log file's existence and tombstone sets stay complementary (an id added to one is removed from the other in the same branch); wherever a series is attached to an in-memory measurement its Measurement back-pointer is that measurement; SeriesIndex.FindIDBySeriesKey never returns an id without having tested IsDeleted for it on that path. The 'drop only when no data remains' clause is decided under C10.",
+  note="Does not decide that index answers equal the written-and-not-dropped series after arbitrary histories, agreement of the two index types, TSI compaction merge semantics, or predicate evaluation.",
+  technique="static analysis: must-precede and outcome facts, path avoidance between scan and flush, paired set operations per branch, definition provenance, path exploration with condition facts",
+  ref="§9 C14"),
 }
 
 NA = {
